@@ -74,9 +74,14 @@ def run(tier, seed, replay_path):
     paths = replay.enumerate_paths(g2, 1)
     rnd = random.Random(seed)
     rnd.shuffle(paths)
-    short = [p for p in paths if len(json.loads(p[0])["cmds"]) <= 2]
-    longer = [p for p in paths if len(json.loads(p[0])["cmds"]) > 2]
-    chosen = short + longer[: (250 if tier == "quick" else 100000)]
+    job = lambda p: json.loads(p[0])
+    short = [p for p in paths if len(job(p)["cmds"]) <= 2]
+    longer = [p for p in paths if len(job(p)["cmds"]) > 2]
+    if tier == "quick":
+        chosen = short + longer[:250]
+    else:
+        # every command list in the plain form; the other forms of the optional fields / invocation with lists of <= 3 commands
+        chosen = short + [p for p in longer if job(p).get("form", "full") == "full" or len(job(p)["cmds"]) <= 3]
     stats2, viol2, samples2 = replay.run_paths(g2, chosen, JobRunAdapter, nproc=14)
     stats2["jobs_in_model"] = len(paths)
     ev.count(evaluations=stats2["steps"], distinct_nontrivial=stats2["pairs_exercised"], traces=stats2["paths"])
